@@ -40,7 +40,7 @@ Abstract(s, rs, bs, maxBody, cut) ==
     IN [i \in 1 .. n |-> [start |-> o[i].start, headEnd |-> o[i].headEnd,
                           end |-> IF cut > 0 /\ cut < o[i].end THEN cut ELSE o[i].end,
                           bodyLen |-> s[i].bodyLen, expect100 |-> s[i].expect100 /\ s[i].raw = "",
-                          close |-> s[i].close /\ s[i].raw = "", hclose |-> HClose(rs, bs, i), bad |-> s[i].raw # "",
+                          close |-> AsksClose(s[i]) /\ s[i].raw = "", hclose |-> HClose(rs, bs, i), bad |-> s[i].raw # "",
                           big |-> (maxBody > 0 /\ s[i].bodyLen > maxBody), ambig |-> Ambiguous(s[i]),
                           partial |-> (cut > 0 /\ o[i].start < cut /\ cut < o[i].end)]]
 
@@ -162,7 +162,9 @@ ProgResponseOK(p, i) ==
 \* panicked under the recovery middleware yields a 500; a response program (C04) yields exactly its response
 TraceRespond ==
     /\ active /\ HasLine /\ Line.ev = "Response" /\ phase = "write"
-    /\ Respond(Line.close)
+    \* an HTTP/1.0 client takes a response without "Connection: keep-alive" as the end of the connection
+    \* (judged for the echo handler's responses; response programs that take over the writer are C04's business)
+    /\ Respond(Line.close \/ (script[cur].raw = "" /\ script[cur].ver = "1.0" /\ ~Line.keepalive /\ cur \notin DOMAIN resps))
     /\ IF cur \in DOMAIN resps THEN ProgResponseOK(resps[cur], cur)
        ELSE /\ Line.kind = "final"
             /\ IF Beh(cur) = "panic" THEN Line.status = 500
